@@ -25,6 +25,7 @@ RULE = (
     "allow but the implementation refuses are not violations. Non-trivial: a history in which >= 1 call "
     "was rejected and >= 1 later call succeeded. Distinct by digest of the history."
 )
+RULE += ' Added after seeded-change rounds 4-5: targeted histories: a blackbox output connected to a list of driverless bufs; instance names equal to <inst>_<nested instance> or <inst>.<x>; parent nodes named like nested pins.'
 ASSUMPTIONS = [
     "invariant checker and legality model written from the rules in property C07 / circuit.py documentation",
     "children for add_subcircuit / fill_blackbox come from a fixed library of 8 small circuits (one with a nested blackbox, two with the pin names of a blackbox type but other roles)",
